@@ -118,6 +118,8 @@ class Unit:
                 raise SpecError('%s: unknown section @%s' % (self.path, kind))
         if not self.name:
             raise SpecError(self.path + ': no @unit')
+        for gname in [k for k, g in self.groups.items() if g.attrs.get('only') not in (None, self.name)]:
+            del self.groups[gname]
 
     def contract_for(self, cname, cfg):
         for when, text in self.contracts.get(cname, []):
